@@ -100,6 +100,21 @@ class NativeVM:
     def truth(self, v):
         return bool(v)
 
+    def all_of(self, conds):
+        return all(bool(c) for c in conds)
+
+    def any_of(self, conds):
+        return any(bool(c) for c in conds)
+
+    def not_(self, c):
+        return not c
+
+    def implies(self, a, b):
+        return (not a) or bool(b)
+
+    def ite(self, c, a, b):
+        return a if c else b
+
     def choose_int(self, v, lo, hi):
         return v
 
